@@ -57,17 +57,82 @@ func checkSubst(raw json.RawMessage) error {
 	if err := json.Unmarshal(raw, &c); err != nil {
 		return fmt.Errorf("hx: %v", err)
 	}
+	rd, format := readers(c.Sym)
+	if c.Multi {
+		rd = oned.NewMultiFormatUPCEANReader(map[gozxing.DecodeHintType]interface{}{gozxing.DecodeHintType_POSSIBLE_FORMATS: []gozxing.BarcodeFormat{format}})
+	}
+	return evalSubst(rd, c)
+}
+
+// SubstHistory: a sequence of reads on ONE reader instance; the symbols of one history share
+// their data digits and differ in the check digit they carry (valid and invalid ones in any
+// order), or are unrelated numbers. Each verdict must be that of a fresh reader.
+type SubstHistory struct {
+	Sym   string      `json:"sym"`
+	Multi bool        `json:"multi"`
+	Steps []SubstCase `json:"steps"`
+}
+
+func checkSubstHistory(raw json.RawMessage) error {
+	var h SubstHistory
+	if err := json.Unmarshal(raw, &h); err != nil {
+		return fmt.Errorf("hx: %v", err)
+	}
+	rd, format := readers(h.Sym)
+	if h.Multi {
+		rd = oned.NewMultiFormatUPCEANReader(map[gozxing.DecodeHintType]interface{}{gozxing.DecodeHintType_POSSIBLE_FORMATS: []gozxing.BarcodeFormat{format}})
+	}
+	var hints map[gozxing.DecodeHintType]interface{}
+	if h.Multi {
+		hints = map[gozxing.DecodeHintType]interface{}{gozxing.DecodeHintType_POSSIBLE_FORMATS: []gozxing.BarcodeFormat{format}}
+	}
+	for i, st := range h.Steps {
+		mod, err := modulesFor(h.Sym, st.Digits)
+		if err != nil {
+			return fmt.Errorf("hx: %v", err)
+		}
+		img := onedx.Render(mod, 12, 12, st.Scale, 8)
+		// what a fresh reader makes of this picture (its absolute correctness is the business of the
+		// substitution sub-checks) ...
+		fresh, _ := readers(h.Sym)
+		if h.Multi {
+			fresh = oned.NewMultiFormatUPCEANReader(hints)
+		}
+		b1, _ := gozxing.NewBinaryBitmapFromImage(img)
+		fr, ferr := fresh.Decode(b1, hints)
+		// ... is what the reused reader must make of it
+		b2, _ := gozxing.NewBinaryBitmapFromImage(img)
+		rr, rerr := rd.Decode(b2, hints)
+		desc := fmt.Sprintf("step %d of %d on one %s reader (multi=%v): symbol carrying %s (checksum verifies: %v), scale %d; earlier steps %v", i+1, len(h.Steps), h.Sym, h.Multi, st.Digits, validNumber(h.Sym, st.Digits), st.Scale, h.Steps[:i])
+		if (ferr == nil) != (rerr == nil) {
+			return fmt.Errorf("fresh reader: %v / %v, reused reader: %v / %v [%s]", textOf(fr), ferr, textOf(rr), rerr, desc)
+		}
+		if ferr == nil && (fr.GetText() != rr.GetText() || fr.GetBarcodeFormat() != rr.GetBarcodeFormat()) {
+			return fmt.Errorf("fresh reader read %q, reused reader read %q [%s]", fr.GetText(), rr.GetText(), desc)
+		}
+	}
+	return nil
+}
+
+func textOf(r *gozxing.Result) string {
+	if r == nil {
+		return "-"
+	}
+	return r.GetText()
+}
+
+func evalSubst(rd gozxing.Reader, c SubstCase) error {
 	mod, err := modulesFor(c.Sym, c.Digits)
 	if err != nil {
 		return fmt.Errorf("hx: %v", err)
 	}
 	img := onedx.Render(mod, 12, 12, c.Scale, 8)
 	bmp, _ := gozxing.NewBinaryBitmapFromImage(img)
-	rd, format := readers(c.Sym)
+	_, format := readers(c.Sym)
 	var res *gozxing.Result
 	if c.Multi {
 		h := map[gozxing.DecodeHintType]interface{}{gozxing.DecodeHintType_POSSIBLE_FORMATS: []gozxing.BarcodeFormat{format}}
-		res, err = oned.NewMultiFormatUPCEANReader(h).Decode(bmp, h)
+		res, err = rd.Decode(bmp, h)
 	} else {
 		res, err = rd.Decode(bmp, nil)
 	}
@@ -87,8 +152,6 @@ func checkSubst(raw json.RawMessage) error {
 	}
 	return nil
 }
-
-// ------------------------------------------------ Code 128 / Code 93 substitution
 
 type SymSubstCase struct {
 	Sym   string `json:"sym"` // CODE128 | CODE93
@@ -401,6 +464,7 @@ func TestCheck(t *testing.T) {
 		c.Register("expand", checkExpand)
 		c.Register("addon", checkAddOn)
 		c.Register("addon_history", checkAddOnHistory)
+		c.Register("subst_history", checkSubstHistory)
 		// known finding: an upside-down UPC-E symbol can itself decode as a different, valid UPC-E number
 		c.RegisterMatcher("upce-upside-down-misread", func(raw json.RawMessage, err error) bool {
 			var cs SubstCase
@@ -665,6 +729,52 @@ func TestCheck(t *testing.T) {
 			}
 		}
 		c.SetExhaustive("ean5_addons", stride5 == 1)
+
+		// (g) check-digit verdicts as a history on one reader instance
+		c.Rapid("reader_instance_histories", c.N(300, 6000), func(t *rapid.T) {
+			h := SubstHistory{Sym: rapid.SampledFrom([]string{"EAN13", "EAN8", "UPCA", "UPCE", "UPCE"}).Draw(t, "sym"), Multi: rapid.IntRange(0, 3).Draw(t, "multi") == 0}
+			r := hx.NewRng(rapid.Uint64().Draw(t, "numseed"))
+			base := randNumber(h.Sym, r)
+			n := rapid.IntRange(2, 6).Draw(t, "steps")
+			sawValid, sawInvalid, validAfterInvalid, invalidAfterValid := false, false, false, false
+			for i := 0; i < n; i++ {
+				digits := base
+				switch rapid.IntRange(0, 3).Draw(t, "kind") {
+				case 0: // the valid symbol
+				case 1, 2: // same data digits, another check digit
+					d := byte('0' + rapid.IntRange(0, 9).Draw(t, "check"))
+					digits = base[:len(base)-1] + string(d)
+				default: // an unrelated number
+					digits = randNumber(h.Sym, hx.NewRng(rapid.Uint64().Draw(t, "other")))
+				}
+				if _, err := modulesFor(h.Sym, digits); err != nil {
+					digits = base
+				}
+				if validNumber(h.Sym, digits) {
+					if sawInvalid {
+						validAfterInvalid = true
+					}
+					sawValid = true
+				} else {
+					if sawValid {
+						invalidAfterValid = true
+					}
+					sawInvalid = true
+				}
+				h.Steps = append(h.Steps, SubstCase{Digits: digits, Scale: rapid.IntRange(1, 2).Draw(t, "scale")})
+			}
+			cl := "sym=" + h.Sym
+			if validAfterInvalid {
+				cl += ";valid_after_refused"
+			}
+			if invalidAfterValid {
+				cl += ";wrong_check_after_valid"
+			}
+			c.Note("reader_instance_histories", cl, validAfterInvalid || invalidAfterValid, hx.HashS("sh", fmt.Sprint(h)), func() any { return h })
+			if err := c.Eval("subst_history", h); err != nil {
+				t.Fatalf("%v", err)
+			}
+		})
 
 		// (f) add-on reads as a history on one reader instance (buffers are per reader)
 		c.Rapid("addon_reader_histories", c.N(300, 6000), func(t *rapid.T) {
